@@ -119,6 +119,8 @@ def _two_surfaces(rng, tier, kinds):
     surfs, meshes = [], []
     for si, kind in enumerate(kinds):
         nx, ny = [(2, 3), (3, 3), (2, 5), (3, 5)][int(rng.integers(0, 4))] if kind != "full" else [(2, 3), (3, 3), (2, 5)][int(rng.integers(0, 3))]
+        if si >= 2:
+            nx = 3          # a third surface with two chordwise panels: exercises the cumulative offsets of every per-surface block
         mesh = gen.rand_mesh(rng, nx, ny, kind) + np.array([4.0 * si, 0.0, 0.6 * si])
         surfs.append(_surf(mesh, kind, name="s%d" % si)); meshes.append(mesh)
     return surfs, meshes
